@@ -36,6 +36,9 @@ func Explore(r *vh.Run, t *testing.T, name string, sc xplore.Scenario, opt xplor
 			opt.Expired = r.Expired
 		}
 	}
+	opt.BeforeExec = func(prefix []string) {
+		r.Checkpoint(name, Detail{Scenario: name, Trace: append([]string{}, prefix...)})
+	}
 	st := xplore.Explore(t, sc, opt, check)
 	r.Eval(st.Execs)
 	r.Trace(st.Execs)
